@@ -779,10 +779,17 @@ def scorer_build(ctx):
     crate = ctx.facts("A").lib
     E = Effects(crate)
     p = SC + "ScorerBuilder::check_base"
-    if not dict.__contains__(crate.fns, p):
+    in_place = not dict.__contains__(crate.fns, p)
+    if not in_place:
+        # check_base itself written as `keys().all(|k| ..)` / `!keys().any(|k| ..)`: no loop of its own
+        fa0 = E.fa(p)
+        has_loop = any(any(strip_generics(x).endswith("::next") for x in callee_paths(t)) for b, t in fa0.calls())
+        has_fold = any({strip_generics(x).rsplit("::", 1)[-1] for x in callee_paths(t)} & {"any", "all"} for b, t in fa0.calls())
+        in_place = not has_loop and has_fold
+    if in_place:
         # the search written in place: `while second_map.keys().any(|key2| slot(base ^ key2) is
         # occupied) { base += 1 }` - `any` gives up only after every key (or at the first hit)
-        pb = SC + "ScorerBuilder::build"
+        pb = p if dict.__contains__(crate.fns, p) else SC + "ScorerBuilder::build"
         fb = E.fa(pb)
         SB = Sym(E, fb)
         hit = None
@@ -820,6 +827,12 @@ def scorer_build(ctx):
                "against the unused marker" if ok else
                "the base search of ScorerBuilder::build does not probe checks[base ^ key2] against the "
                "unused marker for every key of the row")
+        if pb == p:
+            fbu = E.fa(SC + "ScorerBuilder::build")
+            ncb = len(calls_named(fbu, "check_base"))
+            ctx.ob("SCORERBUILD", "A|build|searches-free-base", ncb == 1, fn_loc(crate, SC + "ScorerBuilder::build"),
+                   "build() searches a collision-free base with check_base before placing a row")
+            return
         ctx.ob("SCORERBUILD", "A|build|searches-free-base", hit is not None, fn_loc(crate, pb),
                "build() searches a collision-free base before placing a row")
         return
